@@ -9,6 +9,7 @@ import (
 	"strings"
 	"testing"
 
+	"verif/internal/match"
 	"verif/internal/model"
 	"verif/internal/vk"
 
@@ -260,7 +261,7 @@ func run(r *vk.Run, kind, n int, prog []model.Node) *vk.Fail {
 	if res.Err != nil {
 		return fail("render failed (%v), reference output %q", res.Err, want.Out)
 	}
-	if res.Out != want.Out {
+	if !match.SameText(res.Out, want.Out) {
 		return fail("output %q, reference says %q", res.Out, want.Out)
 	}
 	return nil
